@@ -129,7 +129,13 @@ func str(s string) zn.Expr  { return &zn.Str{V: s} }
 
 // raise - a statement list that raises (kind drawn)
 func (g *gen) raise(tag string) []zn.Stmt {
-	switch g.pick(13, "raise") {
+	switch g.pick(15, "raise") {
+	case 13:
+		g.labels["raise:format-directive-on-text"] = true
+		return []zn.Stmt{&zn.Let{Names: []string{"Q" + tag}, E: &zn.Bin{Op: "%", L: str("{#.2}"), R: &zn.ListLit{Items: []zn.Expr{str("x")}}}}}
+	case 14:
+		g.labels["raise:format-count-mismatch"] = true
+		return []zn.Stmt{show("fmt", &zn.Bin{Op: "%", L: str("{}{}"), R: &zn.ListLit{Items: []zn.Expr{num(1)}}})}
 	case 11:
 		g.labels["raise:arity-mismatch"] = true
 		return []zn.Stmt{show("ar", &zn.Call{Name: "Helper"})}
